@@ -8,6 +8,9 @@
 //!                                           `s<hex>` `'text'` | `m<hex>_<hex>` `"$N"$M`; observation: which bodies ran
 //!   `s <subject hex> <q1> <p1> <q2> <p2>`   `case $1 in ("$2"$3) …;; ("$4"$5) …;; (*) …` and the four trims
 //!                                           of `$1` by `"$2"$3`, run by the shell on the virtual system
+//!   `w <subject hex> <word>`                `case $1 in (WORD) …;; (*) …` and the four trims of `$1` by WORD, for a pattern word built
+//!                                           from every quoting mechanism (encoding: Main.lean); also observes the attributed
+//!                                           characters the real `expand_word_attr` yields for WORD (`X=`)
 //! Observation (`m`): error class or `E=ok`, literal fast path flag, `is_match` under the four anchor
 //! configurations, `find:rfind` byte ranges under seven (anchor, greed) configurations, `literal_period`
 //! variants, and the four trim results.
@@ -42,7 +45,12 @@ fn err_class(e: &Error) -> &'static str {
         Error::EmptyCollatingSymbol => "emptyCollating",
         Error::UndefinedCharClass(_) => "undefinedClass",
         Error::CharClassInRange(_) => "classInRange",
-        Error::RegexError(_) => "regex",
+        // `regex_error_is_inverted_range`: the only way a text `to_regex` emits can fail in the regex compiler is an
+        // inverted range; any other complaint of the regex crate (an unescaped special character, an unclosed
+        // class, …) is its own class, which the model never produces
+        Error::RegexError(e) => {
+            if e.to_string().contains("invalid character class range") { "regex" } else { "regexOther" }
+        }
         _ => "other",
     }
 }
@@ -1122,6 +1130,354 @@ fn rand_case(r: &mut Rng) -> String {
 }
 
 // ------------------------------------------------------------------------------------------
+// shell leg 3 (`w` cases): pattern WORDS — every quoting mechanism, nested, in `case` and in the four trims
+
+#[derive(Clone, Debug)]
+enum TUnit {
+    Lit(String),
+    Bs(char),
+    Param(String),
+    Alt(Vec<WUnit>),
+}
+
+#[derive(Clone, Debug)]
+enum WUnit {
+    Lit(String),
+    Bs(char),
+    Sq(String),
+    Param(String),
+    Alt(Vec<WUnit>),
+    Dq(Vec<TUnit>),
+}
+
+fn enc_text(t: &[TUnit], lvl: usize) -> String {
+    let sep = if lvl == 0 { ";" } else { "~" };
+    t.iter()
+        .map(|u| match u {
+            TUnit::Lit(s) => format!("l{}", enc_str(s)),
+            TUnit::Bs(c) => format!("b{}", enc_str(&c.to_string())),
+            TUnit::Param(v) => format!("p{}", enc_str(v)),
+            TUnit::Alt(w) => format!("a{}", enc_word(w, 1)),
+        })
+        .collect::<Vec<_>>()
+        .join(sep)
+}
+
+fn enc_word(w: &[WUnit], lvl: usize) -> String {
+    let sep = if lvl == 0 { "/" } else { "+" };
+    w.iter()
+        .map(|u| match u {
+            WUnit::Lit(s) => format!("L{}", enc_str(s)),
+            WUnit::Bs(c) => format!("B{}", enc_str(&c.to_string())),
+            WUnit::Sq(s) => format!("S{}", enc_str(s)),
+            WUnit::Param(v) => format!("P{}", enc_str(v)),
+            WUnit::Alt(w) => format!("A{}", enc_word(w, 1)),
+            WUnit::Dq(t) => format!("D{}", enc_text(t, lvl)),
+        })
+        .collect::<Vec<_>>()
+        .join(sep)
+}
+
+fn one_char(h: &str) -> Option<char> {
+    let v = dec_str(h)?;
+    let mut it = v.chars();
+    let c = it.next()?;
+    if it.next().is_some() { None } else { Some(c) }
+}
+
+fn parse_text(s: &str, lvl: usize) -> Option<Vec<TUnit>> {
+    if s.is_empty() {
+        return Some(vec![]);
+    }
+    s.split(if lvl == 0 { ';' } else { '~' })
+        .map(|t| {
+            let (k, h) = t.split_at(t.chars().next()?.len_utf8());
+            Some(match k {
+                "l" => TUnit::Lit(dec_str(h)?),
+                "b" => TUnit::Bs(one_char(h)?),
+                "p" => TUnit::Param(dec_str(h)?),
+                "a" if lvl == 0 => TUnit::Alt(parse_word(h, 1)?),
+                _ => return None,
+            })
+        })
+        .collect()
+}
+
+fn parse_word(s: &str, lvl: usize) -> Option<Vec<WUnit>> {
+    if s.is_empty() {
+        return Some(vec![]);
+    }
+    s.split(if lvl == 0 { '/' } else { '+' })
+        .map(|t| {
+            let (k, h) = t.split_at(t.chars().next()?.len_utf8());
+            Some(match k {
+                "L" => WUnit::Lit(dec_str(h)?),
+                "B" => WUnit::Bs(one_char(h)?),
+                "S" => WUnit::Sq(dec_str(h)?),
+                "P" => WUnit::Param(dec_str(h)?),
+                "A" if lvl == 0 => WUnit::Alt(parse_word(h, 1)?),
+                "D" => WUnit::Dq(parse_text(h, lvl)?),
+                _ => return None,
+            })
+        })
+        .collect()
+}
+
+/// the word as it is written in the script; parameter values are appended to `params` (`$1` is the subject)
+fn text_script(t: &[TUnit], params: &mut Vec<String>) -> String {
+    t.iter()
+        .map(|u| match u {
+            TUnit::Lit(s) => s.clone(),
+            TUnit::Bs(c) => format!("\\{c}"),
+            TUnit::Param(v) => {
+                params.push(v.clone());
+                format!("${{{}}}", params.len())
+            }
+            TUnit::Alt(w) => format!("${{1+{}}}", word_script(w, params)),
+        })
+        .collect()
+}
+
+fn word_script(w: &[WUnit], params: &mut Vec<String>) -> String {
+    w.iter()
+        .map(|u| match u {
+            WUnit::Lit(s) => s.clone(),
+            WUnit::Bs(c) => format!("\\{c}"),
+            WUnit::Sq(s) => format!("'{s}'"),
+            WUnit::Param(v) => {
+                params.push(v.clone());
+                format!("${{{}}}", params.len())
+            }
+            WUnit::Alt(w) => format!("${{1+{}}}", word_script(w, params)),
+            WUnit::Dq(t) => format!("\"{}\"", text_script(t, params)),
+        })
+        .collect()
+}
+
+/// Independent reading of the word (XCU 2.2 / 2.13.1): the characters left by quote removal, each with "was it
+/// quoted by any mechanism"; `raw_bs_before_quote` = an unquoted backslash made by an expansion stands where the
+/// next thing in the word is a quotation mark (not judged).
+fn word_marks(w: &[WUnit], q: bool, out: &mut Vec<Pc>, raw_bs_before_quote: &mut bool) {
+    let pending = |out: &Vec<Pc>| matches!(out.last(), Some(('\\', false)));
+    for u in w {
+        match u {
+            WUnit::Lit(s) => out.extend(s.chars().map(|c| (c, q))),
+            WUnit::Bs(c) => {
+                *raw_bs_before_quote |= pending(out);
+                out.push((*c, true));
+            }
+            WUnit::Sq(s) => {
+                *raw_bs_before_quote |= pending(out);
+                out.extend(s.chars().map(|c| (c, true)));
+            }
+            WUnit::Param(v) => out.extend(v.chars().map(|c| (c, q))),
+            WUnit::Alt(w) => word_marks(w, q, out, raw_bs_before_quote),
+            WUnit::Dq(t) => {
+                *raw_bs_before_quote |= pending(out);
+                for u in t {
+                    match u {
+                        TUnit::Lit(s) => out.extend(s.chars().map(|c| (c, true))),
+                        TUnit::Bs(c) => out.push((*c, true)),
+                        TUnit::Param(v) => out.extend(v.chars().map(|c| (c, true))),
+                        TUnit::Alt(w) => word_marks(w, true, out, &mut false),
+                    }
+                }
+                // the closing quotation mark follows whatever the text ended with; inside the quotes every
+                // character is quoted, so no pending unquoted backslash can end there
+            }
+        }
+    }
+}
+
+/// marked characters -> pattern characters: an unquoted backslash quotes the next character
+fn marks_to_pcs(ms: &[Pc]) -> Vec<Pc> {
+    let mut out = vec![];
+    let mut i = 0;
+    while i < ms.len() {
+        if ms[i] == ('\\', false) && i + 1 < ms.len() {
+            out.push((ms[i + 1].0, true));
+            i += 2;
+        } else {
+            out.push(ms[i]);
+            i += 1;
+        }
+    }
+    out
+}
+
+fn show_attrs(cs: &[yash_env::semantics::expansion::attr::AttrChar]) -> String {
+    use yash_env::semantics::expansion::attr::Origin;
+    if cs.is_empty() {
+        return "-".into();
+    }
+    cs.iter()
+        .map(|c| {
+            let o = match c.origin {
+                Origin::Literal => "L",
+                Origin::HardExpansion => "H",
+                Origin::SoftExpansion => "S",
+            };
+            format!("{:x}{}{}{}", c.value as u32, o, c.is_quoted as u8, c.is_quoting as u8)
+        })
+        .collect::<Vec<_>>()
+        .join(".")
+}
+
+/// Runs the script for a `w` case; returns (observation, oracle).
+fn run_word_case(subj: &str, word: &[WUnit]) -> (String, String) {
+    use futures_util::FutureExt as _;
+    let mut params = vec![subj.to_string()];
+    let w = word_script(word, &mut params);
+    let script = format!(
+        "case $1 in ({w}) echo 1;; (*) echo 0;; esac\n\
+         a=${{1#{w}}} b=${{1##{w}}} c=${{1%{w}}} d=${{1%%{w}}}\n\
+         probe \"$a\" \"$b\" \"$c\" \"$d\"\n"
+    );
+    let mut config = yverif::shell::Config::new(&script);
+    config.positional_params = params;
+    let wtext = w.clone();
+    // the intermediate stage: the attributed characters of the word, from the real parser and `expand_word_attr`
+    let (out, attrs) = yverif::shell::run_with(
+        config,
+        |_, _| (),
+        move |env, _| {
+            let cmd: yash_syntax::syntax::SimpleCommand = match format!("probe {wtext}").parse() {
+                Ok(c) => c,
+                Err(_) => return "syntax-error".to_string(),
+            };
+            let Some((word, _)) = cmd.words.get(1) else { return "no-word".to_string() };
+            match yash_semantics::expansion::expand_word_attr(env, word).now_or_never() {
+                Some(Ok((f, _))) => show_attrs(&f.chars),
+                _ => "expansion-error".to_string(),
+            }
+        },
+    );
+    if out.stuck {
+        return ("TIMEOUT".into(), "-".into());
+    }
+    let text = out.stdout_str();
+    let mut lines = text.lines();
+    let arm = lines.next().unwrap_or("none").to_string();
+    let probe = lines.next().unwrap_or("");
+    let t = probe.split_once(':').map(|x| x.1).unwrap_or("?").to_string();
+    let obs = format!("arm={arm} T={t} X={}", attrs.unwrap_or_else(|| "?".into()));
+
+    // oracle: the property's clauses on the independent reading of the word
+    let mut ms = vec![];
+    let mut skip = false;
+    word_marks(word, false, &mut ms, &mut skip);
+    if skip {
+        return (obs, "-".into());
+    }
+    let pcs = marks_to_pcs(&ms);
+    let Some(toks) = oracle_parse(&pcs) else { return (obs, "-".into()) };
+    let has_seq = toks.iter().any(|t| matches!(t, Tok::Set { seqs, .. } if !seqs.is_empty()));
+    let s: Vec<char> = subj.chars().collect();
+    let n = s.len();
+    let want_arm = if gm(&toks, &s) { "1" } else { "0" };
+    if arm != want_arm {
+        return (obs, format!("FAIL:case arm want {want_arm}"));
+    }
+    let pre: Vec<usize> = (0..=n).filter(|&k| gm(&toks, &s[..k])).collect();
+    let suf: Vec<usize> = (0..=n).filter(|&k| gm(&toks, &s[k..])).collect();
+    let want: [String; 4] = [
+        pre.first().map(|&k| s[k..].iter().collect()).unwrap_or(subj.to_string()),
+        pre.last().map(|&k| s[k..].iter().collect()).unwrap_or(subj.to_string()),
+        suf.last().map(|&k| s[..k].iter().collect()).unwrap_or(subj.to_string()),
+        suf.first().map(|&k| s[..k].iter().collect()).unwrap_or(subj.to_string()),
+    ];
+    let got: Vec<&str> = t.split(',').collect();
+    for i in 0..4 {
+        if has_seq && i < 2 {
+            continue;
+        }
+        if got.get(i).map(|x| x.to_string()) != Some(enc_str(&want[i])) {
+            return (obs, format!("FAIL:trim {i} want {}", enc_str(&want[i])));
+        }
+    }
+    (obs, "ok".into())
+}
+
+/// characters that may stand unquoted in the script inside a case pattern and inside `${1#…}` / `${1+…}`
+const WORD_ALPHA: [char; 11] = ['a', 'b', '.', '-', '*', '?', '[', ']', '!', ':', '='];
+/// the characters a backslash escapes inside double quotes
+const DQ_ESC: [char; 4] = ['$', '`', '"', '\\'];
+
+fn rand_wlit(r: &mut Rng) -> String {
+    (0..1 + r.below(3)).map(|_| *r.pick(&WORD_ALPHA)).collect()
+}
+
+fn rand_value(r: &mut Rng) -> String {
+    // parameter values: pattern text, quoting characters as data, a backslash now and then (also last)
+    let pool = ['a', 'b', '*', '?', '[', ']', '$', '"', '\'', '`', '\\', '-'];
+    (0..r.below(4)).map(|_| *r.pick(&pool)).collect()
+}
+
+fn rand_tunit(r: &mut Rng, lvl: usize) -> TUnit {
+    match r.below(10) {
+        0..=2 => {
+            // literal text inside double quotes; a backslash that escapes nothing stays a (quoted) backslash
+            let mut s = rand_wlit(r);
+            if r.chance(1, 4) {
+                s = format!("\\{s}");
+            }
+            if r.chance(1, 6) {
+                s.push('\'');
+            }
+            TUnit::Lit(s)
+        }
+        3..=6 => TUnit::Bs(*r.pick(&DQ_ESC)),
+        7 | 8 => TUnit::Param(rand_value(r)),
+        // the word of a `${1+…}` inside double quotes is lexed in TEXT context: single quotes are ordinary
+        // characters there and a backslash escapes only `$` `` ` `` `"` `\` `}` — the generator writes only what
+        // the lexer reads back as the same tree
+        _ if lvl == 0 => TUnit::Alt(rand_wunits(r, 1, true)),
+        _ => TUnit::Bs(*r.pick(&DQ_ESC)),
+    }
+}
+
+fn rand_wunits(r: &mut Rng, lvl: usize, text_ctx: bool) -> Vec<WUnit> {
+    let n = 1 + r.below(3);
+    let mut out: Vec<WUnit> = vec![];
+    for _ in 0..n {
+        let u = match r.below(12) {
+            0 | 1 => WUnit::Lit(rand_wlit(r)),
+            2 if text_ctx => WUnit::Bs(*r.pick(&['$', '`', '"', '\\', '}'])),
+            3 if text_ctx => WUnit::Lit(rand_wlit(r)),
+            2 => WUnit::Bs(*r.pick(&['*', '?', '[', '\\', '$', '"', '\'', 'a', ']'])),
+            3 => WUnit::Sq((0..r.below(3)).map(|_| *r.pick(&['a', '*', '\\', '$', '"', '[', '?'])).collect()),
+            4 => WUnit::Param(rand_value(r)),
+            5 if lvl == 0 => WUnit::Alt(rand_wunits(r, 1, false)),
+            _ => WUnit::Dq((0..r.below(4)).map(|_| rand_tunit(r, lvl)).collect()),
+        };
+        // two adjacent unquoted literal runs are one run
+        if let (Some(WUnit::Lit(a)), WUnit::Lit(b)) = (out.last_mut(), &u) {
+            a.push_str(b);
+            continue;
+        }
+        out.push(u);
+    }
+    out
+}
+
+fn rand_word_case(r: &mut Rng) -> String {
+    let word = rand_wunits(r, 0, false);
+    let mut ms = vec![];
+    word_marks(&word, false, &mut ms, &mut false);
+    let value: String = marks_to_pcs(&ms).iter().map(|x| x.0).collect();
+    // subjects: what the word denotes when every character is taken literally, alone or inside other text
+    let subj = match r.below(8) {
+        0 | 1 => value.clone(),
+        2 => format!("a{value}"),
+        3 => format!("{value}b"),
+        4 => format!("{value}{value}"),
+        5 => ms.iter().map(|x| x.0).collect(),
+        _ => rand_text(r, &format!("{value}$\\\"")),
+    };
+    format!("w {} {}", enc_str(&subj), enc_word(&word, 0))
+}
+
+// ------------------------------------------------------------------------------------------
 // generation
 
 const PAT_ALPHA: [char; 13] = ['a', 'b', '.', '-', '*', '?', '[', ']', '!', '^', '\\', ':', '='];
@@ -1365,6 +1721,19 @@ fn run_case(case: &str, memo: &mut Option<Compiled>) {
             let oracle_out = shell_trim_oracle(&d[0], &d[1], &d[2], &obs);
             emit(case, &obs, &oracle_out);
         }
+        ["w", subj, word] => {
+            let (Some(subj), Some(word)) = (dec_str(subj), parse_word(word, 0)) else {
+                emit(case, "bad-case", "-");
+                return;
+            };
+            let mut oracle_out = String::from("-");
+            let obs = guarded(|| {
+                let (obs, o) = run_word_case(&subj, &word);
+                oracle_out = o;
+                obs
+            });
+            emit(case, &obs, &oracle_out);
+        }
         ["k", subj, rest @ ..] if !rest.is_empty() => {
             let parsed: Option<Vec<(char, char, Vec<Alt>)>> = rest
                 .iter()
@@ -1505,6 +1874,13 @@ fn main() {
     let mut rk = Rng::new(opts.seed ^ 0xCA5E);
     for _ in 0..ncase {
         go(rand_case(&mut rk));
+    }
+
+    // 5b. shell leg 3: pattern words (every quoting mechanism, nested) in `case` and the four trims
+    let nword = if thorough { 30_000 } else { 2_000 };
+    let mut rw = Rng::new(opts.seed ^ 0x30BD);
+    for _ in 0..nword {
+        go(rand_word_case(&mut rw));
     }
 
     // 4b. variable match length without `*` (both the crate and the shell): multi-character collating
